@@ -2379,14 +2379,19 @@ fn usefulness(patterns: Vec<PatternStack>, q: PatternStack, defs: &Defs) -> Vec<
                                 meta,
                             ),
                         ),
+                        // a constructor with n fields replaces the first n columns of the witness,
+                        // the columns after them belong to the enclosing patterns:
                         Ctor::Tuple(fields) => {
+                            let tail = witness.split_off(fields.len().min(witness.len()));
                             witness = vec![Pattern::typed(
                                 PatternEnum::Tuple(witness),
                                 Type::Tuple(fields.clone()),
                                 meta,
-                            )]
+                            )];
+                            witness.extend(tail);
                         }
                         Ctor::Struct(struct_name, fields) => {
+                            let tail = witness.split_off(fields.len().min(witness.len()));
                             let witness_fields: Vec<_> = fields
                                 .iter()
                                 .zip(witness.into_iter())
@@ -2396,16 +2401,19 @@ fn usefulness(patterns: Vec<PatternStack>, q: PatternStack, defs: &Defs) -> Vec<
                                 PatternEnum::Struct(struct_name.clone(), witness_fields),
                                 Type::Struct(struct_name.clone()),
                                 meta,
-                            )]
+                            )];
+                            witness.extend(tail);
                         }
-                        Ctor::Variant(enum_name, variant_name, None) => {
-                            witness = vec![Pattern::typed(
+                        Ctor::Variant(enum_name, variant_name, None) => witness.insert(
+                            0,
+                            Pattern::typed(
                                 PatternEnum::EnumUnit(enum_name.clone(), variant_name.clone()),
                                 Type::Enum(enum_name.clone()),
                                 meta,
-                            )]
-                        }
-                        Ctor::Variant(enum_name, variant_name, Some(_)) => {
+                            ),
+                        ),
+                        Ctor::Variant(enum_name, variant_name, Some(fields)) => {
+                            let tail = witness.split_off(fields.len().min(witness.len()));
                             witness = vec![Pattern::typed(
                                 PatternEnum::EnumTuple(
                                     enum_name.clone(),
@@ -2414,7 +2422,8 @@ fn usefulness(patterns: Vec<PatternStack>, q: PatternStack, defs: &Defs) -> Vec<
                                 ),
                                 Type::Enum(enum_name.clone()),
                                 meta,
-                            )]
+                            )];
+                            witness.extend(tail);
                         }
                         Ctor::Array(elem_ty, size) => witness.insert(
                             0,
